@@ -433,6 +433,8 @@ func extractC14() *lean {
 		fd := funcDecl(sf, fname)
 		saveIn, saveAll, notifyAfter, notifyAll := 0, 0, 0, 0
 		skips, guarded := false, false
+		skipCond := ""
+		marksIn := 0
 		if fd != nil {
 			saveAll = c14CallsIn(fd, "s.saveEvent")
 			notifyAll = c14CallsIn(fd, "s.notify")
@@ -446,12 +448,14 @@ func extractC14() *lean {
 					if len(ce.Args) >= 2 {
 						if fl, ok := ce.Args[1].(*ast.FuncLit); ok {
 							saveIn += c14CallsIn(fl, "s.saveEvent")
+							marksIn += c14CallsIn(fl, "markPayloadEventSaved")
 							// "payload already stored -> return nil" before the first saveEvent?
 							for _, st := range fl.Body.List {
 								if c14CallsIn(st, "s.saveEvent") > 0 {
 									break
 								}
-								if is, ok := st.(*ast.IfStmt); ok && c14CallsIn(is.Cond, "s.payloadStore.isPayloadPresent") > 0 {
+								if is, ok := st.(*ast.IfStmt); ok && (c14CallsIn(is.Cond, "s.payloadStore.isPayloadPresent") > 0 || c14CallsIn(is.Cond, "isPayloadEventSaved") > 0) {
+									skipCond = c14Expr(is.Cond)
 									for _, b := range is.Body.List {
 										if r, ok := b.(*ast.ReturnStmt); ok && len(r.Results) == 1 && exprString(r.Results[0]) == "nil" {
 											skips = true
@@ -486,8 +490,10 @@ func extractC14() *lean {
 		l.def(p+"SaveOutsideWriteTx", "Nat", fmt.Sprint(saveAll-saveIn), saveAll-saveIn)
 		l.def(p+"NotifyInAfterCommit", "Nat", fmt.Sprint(notifyAfter), notifyAfter)
 		l.def(p+"NotifyElsewhere", "Nat", fmt.Sprint(notifyAll-notifyAfter), notifyAll-notifyAfter)
+		l.def(p+"MarksPayloadEventInWriteTx", "Nat", fmt.Sprint(marksIn), marksIn)
 		if fname == "WritePayload" {
 			b := map[bool]string{true: "true", false: "false"}
+			l.def("writePayloadSkipCondition", "String", fmt.Sprintf("%q", skipCond), skipCond)
 			l.def("writePayloadReturnsEarlyWhenPresent", "Bool", b[skips], skips)
 			l.def("writePayloadNotifyGuarded", "Bool", b[guarded], guarded)
 			l.def("writePayloadSkipsPresent", "Bool", b[skips && guarded], skips && guarded)
@@ -631,6 +637,25 @@ func extractC14() *lean {
 		})
 	}
 	l.def("dagStoreLookups", "List String", leanStrList(kvArgs), kvArgs)
+
+	// the per-transaction marker: shelf and key
+	var markerKeys []string
+	for _, fn := range []string{"isPayloadEventSaved", "markPayloadEventSaved"} {
+		if fd := funcDecl(sf, fn); fd != nil {
+			ast.Inspect(fd, func(n ast.Node) bool {
+				if ce, ok := n.(*ast.CallExpr); ok {
+					name := exprString(ce.Fun)
+					if strings.HasSuffix(name, ".Get") || strings.HasSuffix(name, ".Put") {
+						markerKeys = append(markerKeys, fn+": "+c14Expr(ce))
+					}
+				}
+				return true
+			})
+		} else {
+			markerKeys = append(markerKeys, fn+": MISSING")
+		}
+	}
+	l.def("payloadEventMarker", "List String", leanStrList(markerKeys), markerKeys)
 
 	// ---- protocol v2 handleTransactionPayload: order of the state calls
 	_, hf := parseFile("network/transport/v2/handlers.go")
